@@ -212,6 +212,8 @@ def gen_case(item, rng, tier):
             force = {'it': 0, 'ctx': 9, 'thumb': 0}
         rng.shuffle(words)
         nt = len(words)
+        if rng.random() < 0.5:
+            force['edge_regs'] = rng.randrange(1, 8)          # r0-r12 reloaded with range-edge operands before two ticks out of three
     elif item['k'] == 'sweep16':
         n = 65536 // item['of']
         lo = item['slice'] * n
